@@ -313,8 +313,12 @@ def replay_blur(chk, case, lib, rng, trace, ranks, tmp=None):
                     hi = realeval.ev(fr["hi"], env)
                     if close_arr(gv[f, s], hi):
                         continue
-                    if not case["exactgrid"]:
-                        nties += 1     # a distance equal to the cut-off on an inexact grid: float-fragile
+                    if not case["exactgrid"] or fr["nedge"] >= 2:
+                        # a distance equal to the cut-off on an inexact grid is float-fragile; with several particles exactly
+                        # on the cut-off the specification gives the two uniform outcomes (none / all of them inside) only, and
+                        # a mixed outcome (the minimum image goes through the inexact inverse of a non-dyadic cell, which can
+                        # nudge ONE of the distances) is admissible too: a tie, never a violation
+                        nties += 1
                         continue
                 bad = {"frame": f, "slot": s, "point": sl["pt"], "observed": np.asarray(gv[f, s]).tolist(),
                        "expected": np.asarray(lo).tolist() if np.ndim(lo) else float(lo), "n_inside": fr["nin"],
